@@ -6,6 +6,8 @@ use crate::hist::*;
 
 pub fn prop() -> HistProp {
     let mut opts = HistOpts::new(Profile::Untyped);
+    // timestamp setters are part of the histories: they must not disturb the tree or later calls
+    opts.with_time = true;
     opts.wellformed = true;
     HistProp {
         opts,
